@@ -512,10 +512,10 @@ func c10Registration(c *core.Ctx, r *core.Report, s unorderedSource, cons string
 				}
 			case ssa.CallInstruction:
 				com := x.Common()
-				if core.IsLogCall(com) || com.IsInvoke() {
+				if core.IsLogCall(com) || (com.IsInvoke() && c.InternalImpl(com) == nil) {
 					continue
 				}
-				if cal := com.StaticCallee(); cal != nil && c.InScope(cal) {
+				if cal := c.ResolvedCallee(com); cal != nil && c.InScope(cal) {
 					// registration of component post-processors: must end up in a list that goes through the sorter
 					through := false
 					for _, f := range c.StaticCalleesInPkg(cal, nil) {
